@@ -17,6 +17,12 @@ DIRECTED = [
      [{'all': False, 'check': 'CheckECKeySmallDifference', 'batch': ['s1', 's2', 's3']}, {'all': True, 'check': 'ALL', 'batch': ['s2', 's1']}]),
     ('ec', 'negative-logarithms', {'s1': 'weakprivateneg', 's2': 'weakprivate', 's3': 'weakprivatetop', 's4': 'healthy'},
      [{'all': False, 'check': 'CheckWeakECPrivateKey', 'batch': ['s1', 's4']}, {'all': True, 'check': 'ALL', 'batch': ['s2', 's1', 's3']}]),
+    ('ec', 'exact-giant-steps', {'s1': 'weakprivatestep1', 's2': 'weakprivatestep2', 's3': 'healthy', 's4': 'weakprivatestep3', 's5': 'healthy384'},
+     [{'all': False, 'check': 'CheckWeakECPrivateKey', 'batch': ['s1']}, {'all': False, 'check': 'CheckWeakECPrivateKey', 'batch': ['s2', 's3']},
+      {'all': False, 'check': 'CheckWeakECPrivateKey', 'batch': ['s4', 's5', 's3', 's1']}]),
+    ('ec', 'difference-inside-the-older-table', {'s1': 'weakprivate', 's2': 'farA', 's3': 'farB', 's4': 'healthy'},
+     [{'all': False, 'check': 'CheckWeakECPrivateKey', 'batch': ['s1']}, {'all': False, 'check': 'CheckECKeySmallDifference', 'batch': ['s2', 's3', 's4']},
+      {'all': True, 'check': 'ALL', 'batch': ['s3', 's2']}]),
     ('ec', 'unreduced-zero', {'s1': 'zero', 's2': 'unreduced1'}, [{'all': False, 'check': 'CheckECKeySmallDifference', 'batch': ['s1', 's2']}]),
     ('ecdsa', 'many-honest-one-issuer', {'s1': 'healthy12', 's2': 'healthyA'},
      [{'all': False, 'check': 'CheckNonceGeneralized', 'batch': ['s1']}, {'all': True, 'check': 'ALL', 'batch': ['s2', 's1']}]),
